@@ -134,6 +134,8 @@ struct Inner {
     sends: u64,
     delivers: u64,
     send_errors: u64,
+    /// deliver datagrams addressed to 0.0.0.0 or 127.0.0.0/8 to the sender's own host, as Linux does
+    local_delivery: bool,
 }
 
 pub struct Shared {
@@ -294,12 +296,12 @@ impl Inner {
     /// Hand a datagram to the network. `extra_delay` is added to the drawn latency.
     fn send(&mut self, sock: SockId, buf: &[u8], to: SocketAddrV4, raw: bool, extra_delay: u64) {
         let now = self.now;
-        let (from, crashed) = match self.socks.get_mut(&sock) {
+        let (from, crashed, natted) = match self.socks.get_mut(&sock) {
             Some(s) => {
                 if let Some(nat) = s.nat.as_mut() {
                     nat.allowed.insert(to);
                 }
-                (s.addr, s.crashed || matches!(s.st, St::Closed { .. }))
+                (s.addr, s.crashed || matches!(s.st, St::Closed { .. }), s.nat.is_some())
             }
             None => return,
         };
@@ -332,8 +334,15 @@ impl Inner {
             }
             return;
         }
+        // "This host": what Linux does with a datagram for 0.0.0.0 or 127.0.0.0/8 - it goes to the socket
+        // bound to that port on the sender's own host, and arrives with the loopback address as its source.
+        let (lookup, from) = if self.local_delivery && (to.ip().is_unspecified() || to.ip().is_loopback()) && !from.ip().is_loopback() && !natted {
+            (SocketAddrV4::new(*from.ip(), to.port()), SocketAddrV4::new(Ipv4Addr::LOCALHOST, from.port()))
+        } else {
+            (to, from)
+        };
         for (b, delay) in copies {
-            let dest = match self.by_addr.get(&to).copied() {
+            let dest = match self.by_addr.get(&lookup).copied() {
                 Some(d) => d,
                 None => {
                     if full {
@@ -457,6 +466,7 @@ impl World {
                 sends: 0,
                 delivers: 0,
                 send_errors: 0,
+                local_delivery: false,
             }),
             sched_cv: Condvar::new(),
         });
@@ -499,6 +509,10 @@ impl World {
     }
     pub fn set_fault(&self, hook: Option<FaultHook>) {
         self.sh.lock().fault = hook;
+    }
+    /// Datagrams for 0.0.0.0 / 127.x.y.z reach the socket with that port on the sender's host (source 127.0.0.1).
+    pub fn set_local_delivery(&self, on: bool) {
+        self.sh.lock().local_delivery = on;
     }
     pub fn set_latency(&self, min: u64, max: u64) {
         let mut g = self.sh.lock();
